@@ -88,6 +88,124 @@ def progbatch(run, extra_args=None):
         run.extra_cov["compile_rejected_detail"] = dict(list(total_rejected.items())[:5])
 
 
+def build_expander(features=None):
+    ok, out = common.cargo_build("expander", features=features)
+    if not ok:
+        raise Infra("expander does not build against the current tree's cglue-gen:\n" + out[-3000:])
+    return common.bin_path("expander")
+
+
+def c03(run):
+    """C03: (1) structural oracle over all expansions, (2) the compiler's own FFI lints on
+    expansions written out as plain source + probes, (3) repr audit of the runtime crate."""
+    import gen_c03, shutil, subprocess, time
+    exp = build_expander()
+    n_random, n_groups = (60, 10) if run.tier == "quick" else (1200, 150)
+    defs = gen_c03.make_defs(run.seed, n_random, n_groups)
+    os.makedirs(common.WORK, exist_ok=True)
+    defs_file = os.path.join(common.WORK, f"c03-defs-{os.getpid()}.json")
+    json.dump(defs, open(defs_file, "w"))
+    # (1) structural
+    out = os.path.join(common.WORK, f"c03-struct-{os.getpid()}.json")
+    cmd = [exp, "struct", defs_file, "C03", "--out", out]
+    if run.replay:
+        body = json.load(open(run.replay))
+        if body.get("sub") == "structural":
+            cmd += ["--replay", os.path.abspath(run.replay)]
+    r = common.sh(cmd, timeout=3000)
+    if not os.path.exists(out):
+        raise Infra("expander struct produced no result:\n" + (r.stdout or "")[-2000:])
+    res = json.load(open(out)); os.remove(out)
+    res["_label"] = "structural"
+    run.add_result(res)
+    if run.replay and json.load(open(run.replay)).get("sub") == "structural":
+        os.remove(defs_file)
+        return
+    # (2) lint crate(s)
+    step = 13 if run.tier == "quick" else 1
+    replay_ids = None
+    if run.replay:
+        replay_ids = set(json.load(open(run.replay)).get("case", {}).get("ids", []))
+    chosen = [d for k, d in enumerate(defs) if (d["id"][0] in "rg") or k % step == 0]
+    if replay_ids is not None:
+        chosen = [d for d in defs if d["id"] in replay_ids or any(u in replay_ids for u in d.get("uses", []))]
+        # groups need their traits
+        need = set(u for d in chosen for u in d.get("uses", []))
+        chosen += [d for d in defs if d["id"] in need and d not in chosen]
+    chunk_size = 400
+    lint_evals, lint_nt, lint_viol, samples = 0, 0, [], []
+    crate = os.path.join(common.WORK, "c03lint")
+    for c0 in range(0, len(chosen), chunk_size):
+        chunk = chosen[c0:c0 + chunk_size]
+        # groups refer to trait modules: make sure those are in the same chunk
+        ids = set(d["id"] for d in chunk)
+        for d in list(chunk):
+            for u in d.get("uses", []):
+                if u not in ids:
+                    chunk.append(next(x for x in defs if x["id"] == u)); ids.add(u)
+        shutil.rmtree(os.path.join(crate, "src"), ignore_errors=True)
+        gen_c03.write_lint_crate(crate, [d["id"] for d in chunk], [])
+        cf = os.path.join(common.WORK, f"c03-chunk-{os.getpid()}.json")
+        json.dump(chunk, open(cf, "w"))
+        env = dict(common.ENV); env["CARGO_MANIFEST_DIR"] = crate
+        r = common.sh([exp, "emit", cf, os.path.join(crate, "src")], timeout=600, env=env)
+        os.remove(cf)
+        try:
+            rep = json.loads(r.stdout.strip().splitlines()[-1])
+        except Exception:
+            raise Infra("expander emit failed:\n" + (r.stdout or "")[-2000:])
+        bad_gen = [x for x in rep if not x["ok"]]
+        if bad_gen:
+            raise Infra(f"the generator rejects definitions of the closed grammar: {bad_gen[:2]}")
+        env = dict(common.ENV); env["CARGO_TARGET_DIR"] = PB_TARGET
+        r = subprocess.run(["cargo", "check", "--offline", "--message-format=json"], cwd=crate, env=env, stdout=subprocess.PIPE, stderr=subprocess.PIPE, text=True, timeout=3000)
+        by_mod, other = {}, []
+        for l in r.stdout.splitlines():
+            try:
+                m = json.loads(l)
+            except Exception:
+                continue
+            if m.get("reason") != "compiler-message" or m["message"]["level"] != "error":
+                continue
+            mm = m["message"]
+            code = (mm.get("code") or {}).get("code") or ""
+            sp = mm["spans"][0] if mm["spans"] else {}
+            f = os.path.basename(sp.get("file_name", ""))
+            if code in ("improper_ctypes", "improper_ctypes_definitions"):
+                by_mod.setdefault(f[:-3], []).append((code, mm["message"][:300], (sp.get("text") or [{}])[0].get("text", "")[:240]))
+            elif "aborting due to" not in mm["message"] and "could not compile" not in mm["message"]:
+                other.append((f, mm["message"][:200]))
+        if other and not by_mod:
+            raise Infra(f"lint crate does not compile for reasons other than the FFI lints: {other[:3]}")
+        by_id = {d["id"]: d for d in chunk}
+        for mod, errs in by_mod.items():
+            d = by_id.get(mod)
+            what = "; ".join(f"{c}: {msg} [{txt}]" for (c, msg, txt) in errs[:3])
+            if mod == "rt_types":
+                lint_viol.append({"sub": "lint", "key": "C03:lint:runtime-type", "what": f"a wrapper type shipped by the runtime crate is not FFI-safe by the compiler's rules: {what}", "case": {"ids": ["rt_types"]}})
+            else:
+                lint_viol.append({"sub": "lint", "key": "C03:lint:" + errs[0][0], "what": f"definition {mod} ({(d or {}).get('label')}): {what}", "case": {"ids": [mod], "label": (d or {}).get("label"), "src": (d or {}).get("src")}})
+        lint_evals += len(chunk) + 1
+        lint_nt += sum(1 for d in chunk if d.get("nontrivial")) + 1
+        samples += [{"sub": "lint", "case": {"id": d["id"], "label": d.get("label"), "src": d["src"][:600]}} for d in chunk[:2]]
+        if lint_viol:
+            break
+    run.add_result({"_label": "lint", "evaluations": lint_evals, "distinct_nontrivial": lint_nt, "samples": samples[:4], "violations": lint_viol[:3],
+                    "classes": {"lint:definitions": lint_evals}, "known_seen": {},
+                    "rule": "the same definitions, expanded by /repo's generator and written out as ordinary source modules of a crate with #![deny(improper_ctypes, improper_ctypes_definitions)], each followed by extern \"C\" probe declarations over the opaque Box/ArcBox/Mut/Ref/ArcRef object types (which makes the lint walk the instantiated vtable, container and RetTmp structs), plus probes over every wrapper type of the runtime crate; oracle = rustc's verdict. quick: every 13th enumerated definition + all random ones; thorough: all",
+                    "assumptions": ["the lints of the installed stable rustc are the yardstick (the property says: by the compiler's own rules)"]})
+    # (3) repr audit of the runtime crate
+    out = os.path.join(common.WORK, f"c03-reprs-{os.getpid()}.json")
+    common.sh([exp, "reprs", os.path.join(common.REPO, "cglue", "src"), out], timeout=300)
+    rp = json.load(open(out)); os.remove(out)
+    viol = []
+    if rp["without_repr"]:
+        viol.append({"sub": "reprs", "key": "C03:no-c-repr", "what": f"public runtime types without a C representation: {rp['without_repr'][:5]}", "case": {"types": rp["without_repr"]}})
+    run.add_result({"_label": "reprs", "evaluations": rp["public_types"], "distinct_nontrivial": rp["public_types"], "violations": viol, "classes": {}, "known_seen": {}, "samples": [],
+                    "rule": "every public non-zero-sized struct/enum/union in /repo/cglue/src (parsed with syn) carries a repr attribute"})
+    os.remove(defs_file)
+
+
 def c08(run):
     import gen_c08
     d = gen_c08.make(run.tier)
@@ -107,6 +225,7 @@ def c09(run):
 
 
 PROPS = {
+    "C03": c03,
     "C08": c08,
     "C09": c09,
     "C01": progbatch,
